@@ -463,3 +463,7 @@ def run(chk, facts, tier):
     depth(chk, facts)
     index_len(chk, facts)
     regex_digits(chk, facts)
+    # the inventoried `expect`s of template linking rely on the AST and the JSON copy of a policy naming the same slots: the JSON
+    # conversion accepts a slot only in its own role (C06.GUARD.slot, shared)
+    from rules import c06_slot_guard
+    c06_slot_guard.check(chk, facts)
